@@ -642,7 +642,7 @@ func (u *Unit) bytesToString(st *state, v Val, to types.Type) Val {
 	src := u.arr(st.mem, "elem.uint8#0", SBV(8))
 	base := u.arr(st.mem, strSite, SBV(8))
 	u.sortOfSite(strSite, SBV(8))
-	st.mem.arr[strSite] = u.copyArray(strSite, SBV(8), base, src, p, v.S[0], n)
+	u.putArr(st.mem, strSite, u.copyArray(strSite, SBV(8), base, src, p, v.S[0], n))
 	return Val{T: to, S: []string{ite(eq(n, "0"), "0", p), n}}
 }
 
@@ -652,7 +652,7 @@ func (u *Unit) stringToBytes(st *state, v Val, to types.Type) Val {
 	src := u.arr(st.mem, strSite, SBV(8))
 	base := u.arr(st.mem, "elem.uint8#0", SBV(8))
 	u.sortOfSite("elem.uint8#0", SBV(8))
-	st.mem.arr["elem.uint8#0"] = u.copyArray("elem.uint8#0", SBV(8), base, src, p, v.S[0], n)
+	u.putArr(st.mem, "elem.uint8#0", u.copyArray("elem.uint8#0", SBV(8), base, src, p, v.S[0], n))
 	return Val{T: to, S: []string{p, n, n}}
 }
 
@@ -712,7 +712,7 @@ func (u *Unit) zeroFill(st *state, elem types.Type, p, n string) {
 		body := ite(and(le(p, "a!"), lt("a!", add(p, n))), zeroOf(l.Sort), sel(base, "a!"))
 		u.ctx.assert("zerofill", fmt.Sprintf("(forall ((a! Int)) (! (= (select %s a!) %s) :pattern ((select %s a!))))", na, body, na))
 		u.sortOfSite(l.Site, l.Sort)
-		st.mem.arr[l.Site] = na
+		u.putArr(st.mem, l.Site, na)
 	}
 }
 
